@@ -49,6 +49,9 @@ def entry_points(text: str):
         res["is_valid"] = (k2 == "ok" and v2 is True)
     else:
         res["validate(True)"] = res["is_valid"] = False
+    class CustomerBIC(lib.BIC):   # an application-defined subclass judges like BIC
+        pass
+    res["subclass(t)"] = lib.outcome(CustomerBIC, text)[0] == "ok"
     # an object built in strict mode without validation, then asked in BOTH modes (what was asked
     # for at construction must not stick to the object), also through a copy
     k, obj = lib.outcome(lib.BIC, text, allow_invalid=True, enforce_swift_compliance=True)
@@ -70,6 +73,7 @@ def judge(text: str):
     exp = {"BIC(t)": rb.accept(text, False), "BIC(t,strict)": rb.accept(text, True)}
     exp["validate(True)"] = exp["BIC(t,strict)"]
     exp["is_valid"] = exp["BIC(t)"]
+    exp["subclass(t)"] = exp["BIC(t)"]
     exp["strict-built.validate(False)"] = exp["strict-built.validate(False) again"] = exp["BIC(t)"]
     exp["copy-of-strict-built.validate()"] = exp["BIC(t)"]
     exp["strict-built.validate(True)"] = exp["BIC(t,strict)"]
